@@ -574,11 +574,22 @@ class The(ResultQuantifier[T]):
 class An(ResultQuantifier[T]):
     """Quantifier that yields all matching results one by one."""
 
+    _running_evaluation_: Optional[object] = field(init=False, repr=False, default=None)
+
     def __post_init__(self):
         super().__post_init__()
         self._node_.wrap_subtree = True
 
     def evaluate(self) -> Iterable[TypingUnion[T, Dict[TypingUnion[T, SymbolicExpression[T]], T]]]:
+        if self._running_evaluation_ is not None:
+            # An earlier evaluation of this query is still suspended (its iterator was neither exhausted nor closed):
+            # the duplicate tracking, the partly filled result caches and the "constraints are being evaluated" marks it
+            # left behind must not answer for this one.
+            self._reset_after_evaluation_(completed=False)
+            for node in self._nodes_reached_by_evaluation_:
+                if isinstance(node, Variable):
+                    node._evaluating_kwargs_expression_ = False
+        this_evaluation = self._running_evaluation_ = object()
         results = self._evaluate__()
         completed = False
         try:
@@ -594,7 +605,11 @@ class An(ResultQuantifier[T]):
             completed = True
         finally:
             results.close()
-            self._reset_after_evaluation_(completed)
+            if self._running_evaluation_ is this_evaluation:
+                self._running_evaluation_ = None
+            if self._running_evaluation_ is None:
+                # (the iterator of an earlier evaluation that is closed while a later one runs leaves its state alone)
+                self._reset_after_evaluation_(completed)
 
     def _evaluate__(self, sources: Optional[Dict[int, HashedValue]] = None, yield_when_false: bool = False) -> Iterable[T]:
         sources = sources or {}
